@@ -87,6 +87,29 @@ theorem retLvl_of_stack {s : St} {base : List Node} {n : Node} (h : s.stack = ba
 
 /-! ### `eval_node` -/
 
+theorem PendEv.of_same {s s' : St} {T : Option Node} {lvl : Option Nat} (hd : s'.data = s.data)
+    (hg : s'.ge = s.ge) (hr : s'.refstack = s.refstack) {ev : FEv} (p : PendEv env s T lvl ev) :
+    PendEv env s' T lvl ev := by
+  cases ev with
+  | read c a r x => exact ⟨p.1, fun ha hx l hl => by rw [hr]; exact p.2 ha hx l hl⟩
+  | call m w => exact ⟨by rw [hd]; exact p.1, fun t ht => by rw [hg]; exact p.2 t ht⟩
+  | ucall m => exact fun t ht => by show _ ∈ s'.ge; rw [hg]; exact p t ht
+
+/-- keeping the caller's exception identity when a call returns changes nothing the certificates
+speak about -/
+theorem keepExc_cert (s0 s : St) (p : Res × St) (m : Node) (T : Option Node) (lvl : Option Nat)
+    (h : Post env lt s p.2 ∧ ∀ w, p.1 = .ok w → Ret env p.2 T lvl m w) :
+    Post env lt s (keepExc s0 p).2 ∧ ∀ w, (keepExc s0 p).1 = .ok w → Ret env (keepExc s0 p).2 T lvl m w := by
+  have ho := keepExc_excOnly s0 p
+  refine ⟨h.1.trans (Post.of_same h.1.mid (keepExc_sameG s0 p) ⟨ho.data, ho.inputs, ho.ge, ho.rg⟩
+    (BodyRel.of_frameSame (frameSame_keepExc s0 p))), ?_⟩
+  intro w hw
+  rw [keepExc_fst] at hw
+  rcases h.2 w hw with ⟨hc, hp⟩ | ⟨hc, sub, hrep, hev, hu⟩
+  · exact Or.inl ⟨hc, hp.of_same ho.data ho.ge ho.refstack⟩
+  · exact Or.inr ⟨hc, sub, hrep, fun ev hm => (hev ev hm).of_same ho.data ho.ge ho.refstack,
+      hu.of_same ho.data ho.ge ho.refstack⟩
+
 theorem evalNode_cert (ef : Node → St → Res × St) (hefG : EvalG env lt ef) (hef : EvalC env lt ef) :
     CalleeC env lt (evalNode env ef) := by
   intro m s hm hbelow
@@ -104,7 +127,7 @@ theorem evalNode_cert (ef : Node → St → Res × St) (hefG : EvalG env lt ef) 
   by_cases hc : env.cached m.1 = true
   · simp only [hc, if_true] at hgraph ⊢
     cases hl : lookup s.data m with
-    | none => simp only [hl] at hgraph ⊢; exact hef m s hm hbelow hl
+    | none => simp only [hl] at hgraph ⊢; exact keepExc_cert s s _ m _ _ (hef m s hm hbelow hl)
     | some v =>
       simp only [hl] at hgraph ⊢
       obtain ⟨g', hst', hidx', _⟩ := hgraph
@@ -129,7 +152,7 @@ theorem evalNode_cert (ef : Node → St → Res × St) (hefG : EvalG env lt ef) 
       exact (mem_addEdge_ge s _ _ _).mpr (Or.inr rfl)
   · have hc' : env.cached m.1 = false := by simpa using hc
     simp only [hc', Bool.false_eq_true, if_false]
-    refine hef m s hm hbelow ?_
+    refine keepExc_cert s s _ m _ _ (hef m s hm hbelow ?_)
     cases hl : lookup s.data m with
     | none => rfl
     | some v => have := (hm.gi.heldNodes m (by rw [hl]; rfl)).2; rw [hc'] at this; cases this
